@@ -166,6 +166,8 @@ def run_history(builder, hist, cycle=False, reload_before_last=False):
                 for a in op[1:]]
         r = call(obj.add, *args)
         got = "ok" if r[0] == "ok" else r[1]
+        call(lambda: obj["Zmissing"])            # a look-up of a variant that is not there (KeyError or not) files nothing
+        call(lambda: obj["Server"]["s390x"])
         mapping = getattr(obj, b["attr"])
         if want == "ok":
             if got != "ok":
